@@ -263,7 +263,28 @@ pub fn gen_plaintext(rng: &mut Rng, target: usize) -> Vec<u8> {
     // symbol alphabet ... (single-code Huffman trees, one distance only, no match at all)
     if rng.chance(1, 8) {
         let mut out: Vec<u8> = Vec::with_capacity(target + 8);
-        match rng.below(7) {
+        match rng.below(8) {
+            7 => {
+                // symbol frequencies falling off like the Fibonacci sequence: the unlimited Huffman
+                // tree is much deeper than the 15 (7) bit limit, the length-limiting step has real work
+                let nsym = rng.range(18, 30) as usize;
+                let mut weights: Vec<u64> = vec![1, 2];
+                while weights.len() < nsym {
+                    let l = weights.len();
+                    weights.push(weights[l - 1] + weights[l - 2]);
+                }
+                let total: u64 = weights.iter().sum();
+                let base = rng.below(200) as u8;
+                for _ in 0..target.max(12000) {
+                    let mut x = rng.below(total);
+                    let mut sym = 0usize;
+                    while x >= weights[sym] {
+                        x -= weights[sym];
+                        sym += 1;
+                    }
+                    out.push(base.wrapping_add(sym as u8));
+                }
+            }
             6 => {
                 // pure noise: compressors fall back to stored / huffman-only blocks and the
                 // compressed file is larger than its plaintext
@@ -503,9 +524,16 @@ pub fn wrap(rng: &mut Rng, w: &Wrapper, raw: &[u8], plain: &[u8]) -> Vec<u8> {
             // split z into `chunks` non-empty pieces (first piece >= 6 bytes where possible)
             let n = (*chunks as usize).max(1).min(z.len().max(1));
             let mut cuts: Vec<usize> = Vec::new();
-            for _ in 1..n {
+            for k in 1..n {
                 if z.len() > 16 {
-                    cuts.push(rng.range(8, (z.len() - 8) as u64) as usize);
+                    // mostly anywhere; sometimes a cut that splits the 2 byte zlib header or the
+                    // 4 byte Adler-32 across two chunks (fixed-size IDAT writers produce that)
+                    let c = match rng.below(8) {
+                        0 if k == 1 => rng.range(1, 2) as usize,
+                        1 if k + 1 == n => z.len() - rng.range(1, 5) as usize,
+                        _ => rng.range(1, (z.len() - 1) as u64) as usize,
+                    };
+                    cuts.push(c);
                 }
             }
             cuts.sort();
@@ -633,6 +661,22 @@ pub fn gen_file(rng: &mut Rng, sc: SizeClass) -> Workload {
             raw_len: raw.len(),
         });
         junk(rng, &mut file);
+        if rng.chance(1, 8) {
+            // a run member: a little more than 1024 identical bytes, i.e. an accepted stream of
+            // only 11-20 compressed bytes
+            let run = vec![rng.below(256) as u8; rng.range(1025, 2600) as usize];
+            let c = match rng.below(3) {
+                0 => Compressor::Zlib { level: *rng.pick(&[6, 9]), strategy: 0, window_bits: 15, mem_level: 8 },
+                1 => Compressor::Libdeflate { level: rng.range(1, 12) as i32 },
+                _ => Compressor::Miniz { level: rng.range(1, 10) as u8 },
+            };
+            let raw = c.compress(&run);
+            let w = Wrapper::random(rng);
+            let wrapped = wrap(rng, &w, &raw, &run);
+            file.extend_from_slice(&wrapped);
+            members.push(Member { compressor: c, wrapper: w, plain_len: run.len(), raw_len: raw.len() });
+            junk(rng, &mut file);
+        }
         if rng.chance(1, 4) {
             // a tiny member: a valid wrapped stream whose plaintext is below the scanner's
             // acceptance threshold (probed successfully, then left as literal bytes)
@@ -683,7 +727,7 @@ pub fn gen_stream(rng: &mut Rng, min_plain: usize, max_plain: usize) -> (Compres
     } else {
         gen_plaintext(rng, target)
     };
-    let compressor = if rng.chance(1, 10) {
+    let compressor = if rng.chance(1, 5) {
         // lazy matching with a tiny symbol buffer: a block boundary every 127-255 tokens, many of
         // them right after a deferred match
         Compressor::Zlib {
@@ -872,4 +916,36 @@ pub fn gen_file_larger_than_expanded(rng: &mut Rng) -> Vec<u8> {
     let raw = c.compress(&plain);
     let w = if rng.chance(1, 2) { Wrapper::Zlib(0) } else { Wrapper::Png(rng.range(2, 5) as u8) };
     wrap(rng, &w, &raw, &plain)
+}
+
+/// a signature-free literal file whose expanded form has exactly `expanded` bytes
+/// (version byte + literal tag + varint + content)
+pub fn gen_file_with_expanded_size(expanded: usize) -> Vec<u8> {
+    // varint length of the content length
+    let mut content = expanded.saturating_sub(3);
+    for _ in 0..4 {
+        let mut vl = 1;
+        let mut v = content >> 7;
+        while v > 0 {
+            vl += 1;
+            v >>= 7;
+        }
+        let c2 = expanded.saturating_sub(2 + vl);
+        if c2 == content {
+            break;
+        }
+        content = c2;
+    }
+    let pat = b"All work and no play makes Jack a dull boy. 0123456789 ";
+    let mut f = Vec::with_capacity(content);
+    while f.len() < content {
+        let n = (content - f.len()).min(pat.len());
+        f.extend_from_slice(&pat[..n]);
+    }
+    for b in f.iter_mut() {
+        if matches!(*b, 0x78 | 0x50 | 0x1f | 0x49) {
+            *b = b'_';
+        }
+    }
+    f
 }
